@@ -42,6 +42,7 @@ REQUIRED_REACH = [
     "probe:record_lands_at_start_of_image",
     "probe:patch_path_through_symlink_and_dotdot",
     "probe:one_directive_expanded_twice_with_different_deltas",
+    "probe:delta_defined_on_the_command_line",
     "probe:eof_marker_straddles_refill",
     "probe:truncated_in:payload",
     "probe:truncated_in:rec_offset",
@@ -184,7 +185,7 @@ def gen_case(cseed: int, tier: str) -> dict[str, Any]:
         recs = recs[:k] + [low_first] + recs[k:]
     slots = [s for s in progen.iter_slots(prog) if s["assembled"] and not (s["file"] == "main.s" and not s["path"] and s["pos"] == 0)]
     slot = w.choice(slots)
-    dform = w.choice(["lit", "lit", "const", "const_reassigned", "const_signed", "macro_arg", "macro_arg"])
+    dform = w.choice(["lit", "lit", "const", "const_reassigned", "const_signed", "macro_arg", "macro_arg", "define"])
     return {
         "type": "base",
         "seed": cseed,
@@ -237,6 +238,13 @@ def host_with_directive(case: dict[str, Any]) -> progen.Prog:
                 prog.root.append({"k": "apply", "t": f"inc_zq({sd:#x})" if sd >= 0 else f"inc_zq(-{-sd:#x})", "under_test": True})
             else:
                 prog.root.append({"k": "include_ips", "t": f".include_ips '{path0}', {sd:#x}", "under_test": True})
+        return prog
+    if case.get("delta_form") == "define":
+        # the delta is a name the caller defines (-D DELTA_zq=... on the command line, add_symbol in the API)
+        path0 = case.get("patch_path") or "p.ips"
+        prog = progen.insert_at(prog, case["slot"], {"k": "include_ips", "t": f".include_ips '{path0}', DELTA_zq", "under_test": True})
+        if case.get("second_delta") is not None:
+            prog.root.append({"k": "include_ips", "t": f".include_ips '{path0}', DELTA_zq + 0x400000", "under_test": True})
         return prog
     if case.get("delta_form") in ("const", "const_reassigned"):
         text = f"DELTA_zq := {abs(delta):#x}"
@@ -361,13 +369,22 @@ def run_single(case: dict[str, Any], stats: Stats) -> list[Violation]:
     if not case.get("missing"):
         files[ppath] = stored
     knobs = case.get("knobs") or {}
-    spec = {"entry": "string", "src": "main.s", "rom": host.mapping}
+    spec: dict[str, Any] = {"entry": "string", "src": "main.s", "rom": host.mapping}
     front = case.get("front_end")
     if front:
         # the same thing through a file front end: observed in the bytes of the produced patch
         spec = {"entry": "patch", "src": "main.s", "mapping": host.mapping, "copier": front == "copier", "out": "out.ips"}
+        if case.get("delta_form") == "define":
+            # a delta given with -D goes through the command line
+            spec = {"entry": "cli", "src": "main.s", "format": "ips", "mapping": host.mapping, "copier": front == "copier", "out": "out.ips", "argv_style": case["seed"] & 0xFFFF}
+            stats.bump("probe:delta_defined_on_the_command_line")
         roles["out.ips"] = "out_ips"
         stats.bump("probe:directive_through_assemble_as_patch" + ("_copier" if front == "copier" else ""))
+    if case.get("delta_form") == "define":
+        d0 = case["delta"]
+        sign, mag = ("-" if d0 < 0 else ""), abs(d0)
+        spellings = [str(d0), f"{sign}{mag:#x}", f"{sign}0X{mag:X}", f"{sign}0b{mag:b}", f"{sign}0o{mag:o}", f"{sign}{mag:_d}", f"{sign}0x{mag:_x}", ("+" if d0 >= 0 else "-") + str(mag)]
+        spec["defines"] = [["DELTA_zq", spellings[(case["seed"] >> 16) % len(spellings)]]]
     o = entries.execute_one(files, roles, spec, knobs, faults)
     stats.add_outcome(o)
     if front and o["ok"]:
